@@ -488,8 +488,37 @@ def run(ctx):
 
 
 def run_function_level(ctx):
-    """function-level R-vs-M correspondence hook (filled in by step 2)"""
-    return
+    """function-level R-vs-M correspondence of the regenerated pieces: AN_CREATE_KEY / AN_KEY2TYPE / AN_KEY2REF,
+    ANIanncmp, UINT16ENCODE / UINT16DECODE, ANatype2tag / ANtag2atype (the C macros and functions themselves are
+    evaluated by the harness, the generated Gallina definitions by the extracted driver)"""
+    r = ctx.rng
+    lines = ["history fn"]
+    refs = [0, 1, 2, 255, 256, 257, 32767, 32768, 65534, 65535]
+    for t in (0, 1, 2, 3):
+        for rf in refs + [r.randrange(65536) for _ in range(40)]:
+            lines.append("key %d %d" % (t, rf))
+    ks = [(t << 16) | rf for t in (0, 1, 2, 3) for rf in (1, 2, 65535)] + [r.randrange(1 << 18) for _ in range(60)]
+    for _ in range(300):
+        a, b = r.choice(ks), r.choice(ks)
+        lines.append("cmp %d %d" % (a, b))
+    vals = list(range(0, 65536, 257)) + refs + [r.randrange(65536) for _ in range(200)]
+    if ctx.tier == "thorough":
+        vals = list(range(65536))
+    for v in vals:
+        lines.append("codec %d" % v)
+    for t in range(-2, 7):
+        lines.append("atype2tag %d" % t)
+    for g in list(range(98, 108)) + [0, 1, 700, 65535]:
+        lines.append("tag2atype %d" % g)
+    rc, R, S, M, flat = run_all(ctx, [lines], "fn")
+    bad = [i for i in range(1, len(flat)) if R.get(i + 1) != M[i + 1]]
+    if bad:
+        i = bad[0]
+        ctx.violation("function-level correspondence broken at: %s" % flat[i],
+                      "# C11: regenerated definition (M) vs the C macro/function (R) differ\nhistory fn\n%s\n# library: %s\n# model  : %s"
+                      % (flat[i], R.get(i + 1), M[i + 1]), found=False)
+    ctx.corr("macros/switches~Gen_AN", cases=len(flat) - 1, mismatches=len(bad),
+             functions="AN_CREATE_KEY AN_KEY2TYPE AN_KEY2REF ANIanncmp UINT16ENCODE UINT16DECODE ANatype2tag ANtag2atype")
 
 
 def replay(ctx, path):
